@@ -389,6 +389,7 @@ func (cs *ContractSet) parseContractFile(path, pkgPath string, external bool) er
 			case "at":
 				// at call <callee-substring>: assert {label} expr
 				// at call <callee-substring>: ghost name = expr
+				// at call <callee-substring>: assume {label} expr - an environment assumption stated at the call (before it), NOT checked, listed in the evidence
 				// `at call? X: ...` - optional: the clause speaks about a call the code need not make (e.g. the lossy variant
 				// of an API); every other at-call clause must match a call site, or the contract is rejected
 				optional := false
@@ -396,7 +397,7 @@ func (cs *ContractSet) parseContractFile(path, pkgPath string, external bool) er
 					optional = true
 					rest = "call" + strings.TrimPrefix(rest, "call?")
 				}
-				m := regexp.MustCompile(`^call\s+(\S+?):\s*(assert|lemma|ghostpre|ghost)\s+(.*)$`).FindStringSubmatch(rest)
+				m := regexp.MustCompile(`^call\s+(\S+?):\s*(assert|assume|lemma|ghostpre|ghost)\s+(.*)$`).FindStringSubmatch(rest)
 				if m == nil {
 					return fail(l, "bad at-call clause")
 				}
